@@ -127,7 +127,7 @@ pub fn run_case<G: AffineRepr>(run: u64, case: &SessionCase, st: &mut Stats) {
 }
 
 fn cases(ctx: &Ctx) -> u64 {
-    scaled(ctx.tier.pick(12000, 300000))
+    scaled(ctx.tier.pick(12000, 200000))
 }
 
 pub fn case_for(ctx_seed: u64, tier: Tier, run: u64) -> SessionCase {
